@@ -129,11 +129,17 @@ func (s *Solver) Check(as []*Term, timeoutMs int, wantModel bool) (string, map[s
 	}
 	var sb strings.Builder
 	s.ctx.collectDefs(as, &sb)
+	// the incremental attempt gets a short budget; what it does not decide goes one-shot to the portfolio with the
+	// full budget (see fallback)
+	incMs := timeoutMs
+	if timeoutMs >= 10000 && incMs > 4000 {
+		incMs = 4000
+	}
 	if s.kind == "cvc5" {
 		// cvc5 has no per-query option; use tlimit-per via set-option
-		fmt.Fprintf(&sb, "(set-option :tlimit-per %d)\n", timeoutMs)
+		fmt.Fprintf(&sb, "(set-option :tlimit-per %d)\n", incMs)
 	} else {
-		fmt.Fprintf(&sb, "(set-option :timeout %d)\n", timeoutMs)
+		fmt.Fprintf(&sb, "(set-option :timeout %d)\n", incMs)
 	}
 	sb.WriteString("(push 1)\n")
 	for _, a := range as {
@@ -145,7 +151,7 @@ func (s *Solver) Check(as []*Term, timeoutMs int, wantModel bool) (string, map[s
 	sb.WriteString("(check-sat)\n")
 	gil.Unlock()
 	s.send(sb.String())
-	res, errSeen := s.readResult(time.Duration(timeoutMs)*time.Millisecond + 10*time.Second)
+	res, errSeen := s.readResult(time.Duration(incMs)*time.Millisecond + 10*time.Second)
 	gil.Lock()
 	if res == "dead" {
 		s.restart()
